@@ -1,37 +1,65 @@
 """C06 — every failure is a diagnostic; the generator never crashes or hangs."""
 from __future__ import annotations
 
-from pathlib import Path
-
-from ..common import REPO, VERIF, Ob, fingerprint, result
-from .. import xh
+from ..common import Ob
+from ..e2 import harness_ob, replay  # noqa: F401
 
 META = {
     "level": "model_checking",
     "assumptions": [
         "document loaders (ruamel.yaml, json) and pydantic-core validation are not encoded: the claim starts at the typed model",
+        "OS-level faults are outside the claim",
     ],
 }
 
 
 def obligations(tier: str) -> list[Ob]:
-    obs = [
-        Ob("exit_relation", "vlib.props.C06:xh_file", {"harness": "C06_exit.py", "funcs": ["exit_relation_3"] + (["exit_relation_5"] if tier == "thorough" else []), "timeout": 60 if tier == "quick" else 240}, timeout_s=700, engine="E2", cpus=2),
+    q = tier == "quick"
+    return [
+        harness_ob(
+            "exit_relation", "C06_exit.py", tier, funcs=["exit_relation_3"] + ([] if q else ["exit_relation_5"]), timeout=60 if q else 300, cpus=2,
+            encoded=["openapi_python_client.cli:handle_errors"],
+            stubs=["typer.secho/echo/style replaced by no-ops (output formatting is not the subject)"],
+            bounds={"diagnostics": "<= 3 (quick) / <= 5 (thorough), each WARNING or ERROR, GeneratorError or ParseError"},
+        ),
+        harness_ob(
+            "builders", "C06_builders.py", tier, timeout=150 if q else 600, cpus=8, parallel=12,
+            encoded=[
+                "openapi_python_client.parser.openapi:GeneratorData.from_dict",
+                "openapi_python_client.parser.properties.int:IntProperty.convert_value",
+                "openapi_python_client.parser.properties.float:FloatProperty.convert_value",
+                "openapi_python_client.parser.properties.boolean:BooleanProperty.convert_value",
+                "openapi_python_client.parser.properties.string:StringProperty.convert_value",
+                "openapi_python_client.parser.properties.date:DateProperty.convert_value",
+                "openapi_python_client.parser.properties.datetime:DateTimeProperty.convert_value",
+                "openapi_python_client.parser.properties.uuid:UuidProperty.convert_value",
+                "openapi_python_client.parser.properties.none:NoneProperty.convert_value",
+                "openapi_python_client.parser.properties.any:AnyProperty.convert_value",
+                "openapi_python_client.parser.properties.const:ConstProperty.build",
+                "openapi_python_client.parser.properties:_create_schemas",
+            ],
+            stubs=[
+                "OpenAPI.model_validate -> raises ValidationError (whole-document rejection path)",
+                "update_schemas_with_data -> arbitrary success/failure table that may depend on how many components are already registered (termination of the retry loop is the subject)",
+                "default values: symbolic JSON type; strings, ints and floats from pools (numeric grammar, non-finite values, E1 witnesses)",
+            ],
+            bounds={"components": 3, "string pool": 23, "int pool": 4, "float pool": 7},
+        ),
+        harness_ob(
+            "enum_builders", "C06_enums.py", tier, timeout=150 if q else 600, cpus=4,
+            finding_by_func={"enum_build_no_raise": "C06-F1"},
+            encoded=["openapi_python_client.parser.properties.enum_property:EnumProperty.build", "openapi_python_client.parser.properties.enum_property:EnumProperty.values_from_list", "openapi_python_client.parser.properties.literal_enum_property:LiteralEnumProperty.build"],
+            stubs=["enum values from a pool that contains case/delimiter twins, empty string, leading digits, non-identifier characters"],
+            bounds={"values per enum": "<= 3", "value pool": 10},
+        ),
+        harness_ob(
+            "reference_chains", "C20_refs.py", tier, timeout=120 if q else 400, cpus=1,
+            encoded=["openapi_python_client.parser.bodies:_resolve_reference"],
+            bounds={"reference table": "3 entries, each a reference / the body / dangling / absent"},
+        ),
+        harness_ob(
+            "removal_terminates", "C08_removal.py", tier, timeout=120 if q else 600, cpus=2,
+            encoded=["openapi_python_client.parser.properties:_process_model_errors", "openapi_python_client.parser.properties:_propogate_removal"],
+            bounds={"dependency graph": "all graphs on 3 nodes incl. cycles (4 nodes thorough), arbitrary failing subset"},
+        ),
     ]
-    return obs
-
-
-def xh_file(harness: str, funcs: list[str], timeout: int, tier: str = "quick", known: list | None = None, **_: object) -> dict:
-    hp = VERIF / "harness" / harness
-    recs = xh.check_file(hp, funcs, timeout, [str(REPO)], parallel=len(funcs))
-    res = xh.summarize(recs, hp, "vlib.props.C06:replay")
-    from openapi_python_client import cli
-
-    res["functions"] = [fingerprint(cli.handle_errors)]
-    res["stubs"] = ["typer.secho/echo/style replaced by no-ops (output formatting is not the subject)"]
-    res["bounds"] = {"errors": "<= 3 (quick) / <= 5 (thorough)", "per_condition_timeout_s": timeout}
-    return res
-
-
-def replay(w: dict) -> dict:
-    return xh.replay_call(Path(w["harness"]), w["input"], [str(REPO)])
